@@ -117,9 +117,15 @@ class Ctx(object):
 
     def violation(self, key, what, witness=None):
         if len(self.violations) < self.max_violations:
-            self.violations.append({'key': key, 'what': str(what)[:2000],
-                                    'witness': jsonable(witness), 'shard': self.shard,
-                                    'case': self.evaluations})
+            v = {'key': key, 'what': str(what)[:2000], 'witness': jsonable(witness), 'shard': self.shard, 'case': self.evaluations}
+            self.violations.append(v)
+            side = getattr(self, 'side_file', None)
+            if side:          # kept on disk at once: survives a watchdog kill of this shard
+                try:
+                    with open(side, 'a') as fh:
+                        fh.write(json.dumps(v, default=str) + '\n')
+                except Exception:
+                    pass
 
     def inconclusive(self, reason):
         if len(self.inconclusive_reasons) < 20:
@@ -188,6 +194,7 @@ def main(argv=None):
     os.environ.setdefault('XDG_CONFIG_HOME', os.path.join(scratch, 'config'))
 
     ctx = Ctx(a.pid, a.tier, a.seed, a.shard, a.nshards, scratch, a.replay)
+    ctx.side_file = a.out + '.violations'
     keyfile = a.out + '.keys'
     rc = 0
     try:
